@@ -149,6 +149,94 @@ def h_interleave(c0: bytes, c1: bytes, tA: int, bodyA: bytes, opB: int, tB: int,
     return run(body_interleave, c0, c1, tA, bodyA, opB, tB, bodyB, at)
 
 
+def body_interleave3(c0, c1, tA, bodyA, opB, tB, bodyB, opC, tC, bodyC, at1, at2):
+    """Three operations: B and C each run atomically at a shared-state access of A (at1 <= at2; the same step means
+    C directly after B).  Oracle: some serial order of the non-refused operations."""
+    import itertools
+    kind, same, opA = ctx.PART
+    S = _store.pre_state([c0, c1, b""], 2)
+    if not SP.invariant(S):
+        return (True, "pre-invalid")
+    w = Wm.reset()
+    mstore.install_state(kind, _store.PATH, S)
+    storeA = mstore.open_store(kind, _store.PATH)
+    storeB = storeA if same else mstore.open_store(kind, _store.PATH)
+    storeC = storeA if same else mstore.open_store(kind, _store.PATH)
+    nA, nB, nC = NAMES[tA], NAMES[tB], NAMES[tC]
+    res = {}
+    w.sched.count = 0
+    w.sched.trace = []
+    w.sched.at = at1
+    w.sched.intruder = lambda: res.__setitem__("B", _do(storeB, kind, opB, nB, bodyB, S))
+    w.sched.more = [(at2, lambda: res.__setitem__("C", _do(storeC, kind, opC, nC, bodyC, S)))]
+    res["A"] = _do(storeA, kind, opA, nA, bodyA, S)
+    trace = list(w.sched.trace)
+    fired = [w.sched.fired_at[0]] if w.sched.fired_at else []
+    fired += [f[0] for f in w.sched.fired_more]
+    # intruders whose step lies beyond A's last access simply run after A, one after the other (no nesting)
+    pending = []
+    if w.sched.intruder is not None:
+        pending.append(w.sched.intruder)
+        w.sched.intruder = None
+    pending += [item[1] for item in w.sched.more]
+    w.sched.more = []
+    w.sched.active = True
+    try:
+        for f_ in pending:
+            f_()
+    finally:
+        w.sched.active = False
+    final = mstore.observe(mstore.open_store(kind, _store.PATH))
+    # known-finding classes (same call-site predicates as for two operations, for every intrusion that happened)
+    ops = {"A": (opA, nA, bodyA), "B": (opB, nB, bodyB), "C": (opC, nC, bodyC)}
+    for idx in fired:
+        if kind == "tree":
+            lock_at = trace.index("lock-create") + 1 if "lock-create" in trace else None
+            uA = SP.uid(nA, bodyA) if opA in (0, 1) else None
+            related = False
+            for x in ("B", "C"):
+                ox, nx, bx = ops[x]
+                ux = SP.uid(nx, bx) if ox in (0, 1) else None
+                related = related or nA == nx or (uA is not None and uA == ux)
+            if ctx.kf("C05-tree-check-then-act") and related and idx > 1 and (lock_at is None or idx <= lock_at):
+                return (True, "known")
+        else:
+            cas = [i for i, k in enumerate(trace) if k == "ref-cas"]
+            reads = [i for i, k in enumerate(trace) if k == "ref-read" and (not cas or i < cas[0])]
+            head_read = reads[-1] + 1 if (cas and reads) else None
+            if ctx.kf("C05-bare-stale-tree") and idx > 1 and (head_read is None or idx <= head_read):
+                return (True, "known")
+    ran = [x for x in ("A", "B", "C") if res[x] != "locked"]
+    ok = False
+    for order in itertools.permutations(ran):
+        cur, good = S, True
+        for x in order:
+            want, cur = _spec(cur, *ops[x], S)
+            good = good and res[x] == want
+        if good and mstore.agrees(kind, final, cur):
+            ok = True
+            break
+    seen = []
+    for nm, (etag, data) in final.items():
+        u = SP.uid(nm, data)
+        if u is not None:
+            ok = ok and u not in seen
+            seen.append(u)
+    ok = ok and not mstore.dangling(_store.PATH)
+    return (ok, "three:%d-ran" % len(ran))
+
+
+def h_interleave3(c0: bytes, c1: bytes, tA: int, bodyA: bytes, opB: int, tB: int, bodyB: bytes, opC: int, tC: int,
+                  bodyC: bytes, at1: int, at2: int) -> bool:
+    """
+    pre: max(len(c0), len(c1), len(bodyA), len(bodyB), len(bodyC)) <= ctx.b.blen
+    pre: 0 <= tA <= 2 and 0 <= tB <= 2 and 0 <= tC <= 2 and 0 <= opB <= 3 and 0 <= opC <= 3
+    pre: 1 <= at1 <= at2 <= ctx.b.kmax
+    post: _
+    """
+    return run(body_interleave3, c0, c1, tA, bodyA, opB, tB, bodyB, opC, tC, bodyC, at1, at2)
+
+
 def real_interleave(args, part):
     """Real BareGitStore over a real MemoryRepo (see xv/real_c05.py); only when the model's intrusion lay in the
     window that the real wrapper reproduces (after A's checks and tree read, before its commit)."""
@@ -191,5 +279,11 @@ HARNESSES = [
             parts={"quick": _PARTS}, bounds=_B, budget={"quick": 90, "thorough": 600}, real_replay=real_interleave,
             describe="operation A with an atomic intrusion of operation B at every shared-state access; part = "
                      "(back end, same store object?, kind of A)",
+            encodes=_store.STEP_ENCODES),
+    Harness("interleave3", h_interleave3, body_interleave3, classes=[("three:3-ran", ("tree", False, 0))],
+            parts={"quick": [("tree", False, 0)], "thorough": _PARTS}, bounds=_B, budget={"quick": 60, "thorough": 600},
+            tiers=("thorough",),
+            describe="THREE operations: B and C each run atomically at (possibly the same) shared-state access of A; some "
+                     "serial order of the non-refused operations explains answers and final state (thorough tier)",
             encodes=_store.STEP_ENCODES),
 ]
